@@ -461,6 +461,19 @@ class Frame:
                 raise ExtractError('emit_smt: deref of a non-pointer')
             return p, None
         if k == 'vindex':
+            # a container whose elements the spec supplies ({'size': n, 'data': [e0, e1, ...]}) with a concrete index: that element
+            try:
+                c0, key0 = self.loc(lv[1], pc)
+                cont = c0.v if key0 is None else c0[key0]
+                if isinstance(cont, Cell):
+                    cont = cont.v
+            except ExtractError:
+                cont = None
+            if isinstance(cont, dict) and isinstance(cont.get('data'), list):
+                i = self.ev(lv[2], pc)
+                if re.match(r'^\d+$', i) and int(i) < len(cont['data']):
+                    return cont['data'], int(i)
+                raise ExtractError('emit_smt: index %s into a container of %d modelled elements' % (i[:40], len(cont['data'])))
             self.B.note('element of a container is opaque in back end B')
             return Cell(None), None
         if k == 'elemx':
